@@ -398,7 +398,7 @@ TIERS = {
               ('life', dict(L=2, flavour='empty'), dict(required=['unusual-empty', 'replace', 'remove', 'probe'])),
               ('life', dict(L=3, flavour='all-equal', ids=(1,), classes=2, create_sets=2, auto=False),
                dict(required=['unusual-all-equal', 'replace', 'remove', 'probe', 'release', 'attach-disabled'])),
-              ('reenter', dict(L=2))],
+              ('reenter', dict(L=2), dict(required=['armed-callback-was-postponed']))],
     'thorough': [('life', dict(L=4, ids=(1,), classes=5, create_sets=7, auto=True)),
                  ('life', dict(L=2, build=True, ids=(1, 2), create_sets=8, auto=False)),
                  ('life', dict(L=4, ids=(1, 2), classes=3, create_sets=3, auto=False)),
